@@ -191,6 +191,11 @@ def observe(tname, t, model, where, fail):
         for k in (1, 2, 3, 5):
             subs.append((AF.reform(np.array(ids, dtype=np.int32), k)[1], ids))
         subs.append((AF.reform(np.array(ids, dtype=np.int64), 1)[1], ids))
+        # unsorted / repeated id arrays whose first and last entries span exactly their length
+        if n >= 3:
+            subs.append(([0] + list(range(n - 2, 0, -1)) + [n - 1], [0] + list(range(n - 2, 0, -1)) + [n - 1]))
+            subs.append(([1, 1] + list(range(2, n)), [1, 1] + list(range(2, n))))
+            subs.append(([0] + [0] * (n - 2) + [n - 1], [0] + [0] * (n - 2) + [n - 1]))
         msk = [j % 2 == 0 for j in range(n)]
         for k in (1, 2, 3):
             subs.append((AF.reform(np.array(msk, dtype=bool), k)[1], [j for j in range(n) if msk[j]]))
